@@ -44,6 +44,30 @@ def drop_from_fs(url, fsname):
         shutil.rmtree(url.replace("file://", ""), ignore_errors=True)
 
 
+def apply_fault(url, fsname, name, kind, cut):
+    if fsname == "vtrace":
+        if kind == "missing":
+            tracefs.remove(url, name)
+        else:
+            tracefs.set_fault_len(url, name, cut)
+    elif fsname in ("local", "file"):
+        p = os.path.join(url.replace("file://", ""), name)
+        if kind == "missing":
+            os.remove(p)
+        else:
+            with open(p, "r+b") as f:
+                f.truncate(cut)
+    elif fsname == "memory":
+        import fsspec
+
+        fs = fsspec.filesystem("memory")
+        p = url[len("memory://"):] + "/" + name
+        if kind == "missing":
+            fs.rm(p)
+        else:
+            fs.pipe(p, fs.cat(p)[:cut])
+
+
 def rows_of(sel, n):
     """sel: ("all",) | ("slice", a, b, s) | ("int", i) | ("list", [..]) -> (xarray key, kind, expected rows)"""
     if sel[0] == "all":
@@ -76,15 +100,15 @@ def exercise(case):
         run = {"fs": fsname, "images": []}
         try:
             cut = case.get("cut")
+            faults = list(case.get("faults") or [])
             if cut is not None:
-                ci, clen = cut
-                nm = b.images[ci]["name"]
-                if fsname == "vtrace":
-                    tracefs.set_fault_len(url, nm, clen)
-                elif fsname in ("local", "file"):
-                    p = os.path.join(url.replace("file://", ""), nm)
-                    with open(p, "r+b") as f:
-                        f.truncate(clen)
+                faults.append(dict(file=f"img{cut[0] + 1}", kind="truncated", cut=cut[1]))
+            for ft in faults:
+                role = ft["file"]
+                nm = {"summary": "summary.txt", "vol": b.names["vol"], "led": b.names["led"], "trl": b.names["trl"]}.get(role)
+                if nm is None:
+                    nm = b.images[int(role[3:]) - 1]["name"]
+                apply_fault(url, fsname, nm, ft["kind"], ft.get("cut", 0))
             tracefs.take_log()
             t0 = time.time()
             try:
